@@ -1,5 +1,18 @@
 import Bpmn.Props.C09
 import Bpmn.Props.C09Current
 open Bpmn.Props.C09
-#print axioms run_nil
+#print axioms tracer_segment
+#print axioms tracer_segment_bounds
+#print axioms tracer_same_order
+#print axioms tracer_complete_when_idle
+#print axioms tracer_removal_keeps_others
+#print axioms tracer_sender_order
+#print axioms tracer_unsub_progress
+#print axioms tracer_nodrain_deadlock
+#print axioms progress_dichotomy
+#print axioms unsubscribe_unsubscribed_spins
 #print axioms current_channels_unbuffered
+#print axioms current_ack_channels
+#print axioms current_broadcast_shape
+#print axioms current_default_cap_known
+#print axioms current_progress
